@@ -118,6 +118,21 @@ fn round_trips(x: f64) -> Vec<J> {
 pub fn record(seed: u64, n: usize, cli: Option<&str>) -> Vec<J> {
     let mut r = Rng::new(seed);
     let mut out = vec![];
+    // directed: hexadecimal / binary literals wider than the 53-bit significand whose dropped tail sits just below, at and
+    // just above half a unit in the last place, over an even and an odd last kept bit (round-half-even, one rounding only)
+    for k in 53u32..=100 {
+        if k > 64 && k % 4 != 0 { continue; }
+        let ulp: u128 = 1u128 << (k - 52);
+        let half = ulp >> 1;
+        for low in [0u128, 1] {
+            for tail in [half.saturating_sub(1), half, half + 1, ulp - 1] {
+                let v: u128 = (1u128 << k) + low * ulp + tail;
+                for text in [format!("0x{:X}", v), format!("0b{:b}", v), format!("0x{:x}", v + (ulp << 3))] {
+                    out.push(json!({"ev":"lit","text":text,"cs":chars_json(&text),"parsed":literal_bits(&text)}));
+                }
+            }
+        }
+    }
     for i in 0..n {
         if i % 3 == 2 {
             let text = random_literal(&mut r);
